@@ -9,7 +9,7 @@ class C01(Prop):
     impl_timeout = 30
     rule = ("seeded bigWig inputs: 1–6 chromosomes (names of different lengths; sizes map with extra chromosomes), layouts "
             "dense / sparse / adjacent / touching 0 and the chromosome end / long values / occasional zero-length values, "
-            "1 item up to many sections per chromosome, one chromosome with more than 65535 values under items_per_slot > 65535, values = arbitrary finite f32 bit patterns (2 of 3 cases) or small "
+            "1 item up to many sections per chromosome, text inputs whose values are long decimals next to the midpoint of two f32 values, one chromosome with more than 65535 values under items_per_slot > 65535, values = arbitrary finite f32 bit patterns (2 of 3 cases) or small "
             "integers; × option records (compress, items_per_slot ∈ {1,2,3,7,1024,65535}, block_size ∈ {2,3,5,256}, zooms "
             "auto/none/manual, single/two pass, in-memory, channel size, runtime flavour and threads, iterator / file / "
             "parallel source, sorted-by-start mode with chromosomes out of order); queries: the full span of every "
@@ -60,6 +60,41 @@ class C01(Prop):
             for key in ("compress", "pass", "src", "rt", "inmem"):
                 tags.add(f"{key}={o[key]}")
             out.append(CaseT(f"w{k}", "wig", [], lines, tags))
+        # values written as LONG decimals in a text input, just above / below the midpoint of two neighbouring f32 values: the
+        # stored bits must be those of the nearest f32 (a parse through f64 rounds twice and gets some of them wrong)
+        import struct
+        from decimal import Decimal, getcontext
+        getcontext().prec = 120
+        for g in range(40 if tier == "thorough" else 8):
+            r = rng.fork(f"longdecimal{g}")
+            names = ["chr1", "chr2"][: r.range(1, 2)]
+            sizes = {n: 100000 for n in names}
+            vlines, tlines = [], []
+            for nm in names:
+                pos = r.range(0, 50)
+                for _ in range(r.range(3, 8)):
+                    while True:
+                        b = r.below(1 << 31)                      # positive finite f32 patterns with room above
+                        if 1 <= ((b >> 23) & 0xFF) <= 0xFD:
+                            break
+                    x = struct.unpack(">f", struct.pack(">I", b))[0]
+                    y = struct.unpack(">f", struct.pack(">I", b + 1))[0]
+                    mid = (Decimal(x) + Decimal(y)) / 2
+                    eps = Decimal(10) ** (mid.adjusted() - r.choice([30, 45, 60]))
+                    up = r.chance(1, 2)
+                    dec = mid + eps if up else mid - eps
+                    neg = r.chance(1, 4)
+                    bits = (b + 1 if up else b) | (0x80000000 if neg else 0)
+                    txt = ("-" if neg else "") + format(dec, "f")
+                    ln = r.choice([1, 3, 10])
+                    vlines.append(f"V {nm} {pos} {pos + ln} {bits:08x}")
+                    tlines.append(f"{nm}\t{pos}\t{pos + ln}\t{txt}")
+                    pos += ln + r.choice([0, 2])
+            o = bbgen.gen_options(r, tier)
+            o.update({"src": r.choice(["file", "file", "par"]), "sort": "all", "zooms": r.choice(["none", "10"])})
+            lines = [bbgen.opt_line(o)] + [f"CHROM {n} {sizes[n]}" for n in names] + vlines + ["TEXT " + ("\n".join(tlines) + "\n").encode().hex()]
+            lines += [f"Q iv {nm} 0 {sizes[nm]}" for nm in names]
+            out.append(CaseT(f"dec{g}", "wig", [], lines, {"long_decimal_values", "multi_chrom" if len(names) > 1 else "one_chrom", "text_roundtrip_bits"}))
         # items_per_slot beyond what a section's 16-bit item count can hold, with a chromosome that has more values than that
         for k in range(2 if tier == "thorough" else 1):
             r = rng.fork(f"ips_over_u16_{k}")
